@@ -200,6 +200,76 @@ pub fn gen_wide_range_project(rng: &mut Rng, src: &str, nodes: &[N]) -> Option<(
   Some((Project { rule, utils: vec![], constraints: vec![] }, ni))
 }
 
+/// `has` with a rule-valued `stopBy` whose search meets a stop node that is the LAST child of its parent while the
+/// wanted node comes later in document order (under a following sibling of an ancestor): the search must go on
+/// there.  `{kind: K(n), has: {kind: K(d), stopBy: {kind: K(s)}}}`.  Returns the project and n's index.
+pub fn gen_stop_last_child_project(rng: &mut Rng, nodes: &[N]) -> Option<(Project, usize)> {
+  for _ in 0..60 {
+    let ni = rng.below(nodes.len());
+    let n = nodes[ni].clone();
+    if !n.is_named() {
+      continue;
+    }
+    let sub: Vec<N> = n.dfs().skip(1).take(300).collect();
+    if sub.len() < 4 {
+      continue;
+    }
+    // stop candidates: named, last child of their parent, not the last node of the subtree in pre-order
+    let stops: Vec<usize> = (0..sub.len()).filter(|i| sub[*i].is_named() && sub[*i].next().is_none() && sub[*i].parent().map(|p| p.node_id() != n.node_id()).unwrap_or(false)).collect();
+    if stops.is_empty() {
+      continue;
+    }
+    let si = *rng.pick(&stops);
+    let st = &sub[si];
+    let end = st.range().end;
+    let later: Vec<&N> = sub[si + 1..].iter().filter(|d| d.is_named() && d.range().start >= end && d.kind_id() != st.kind_id()).collect();
+    if later.is_empty() {
+      continue;
+    }
+    let d = (*rng.pick(&later)).clone();
+    let rel = Box::new(Rel { rule: RObj::one(RKey::Kind(d.kind().to_string())), stop: Stop::Rule(RObj::one(RKey::Kind(st.kind().to_string()))), field: None });
+    let rule = RObj { keys: vec![RKey::Kind(n.kind().to_string()), RKey::Has(rel)] };
+    return Some((Project { rule, utils: vec![], constraints: vec![] }, ni));
+  }
+  None
+}
+
+/// `inside` with `field` that has to pass over a nearer ancestor: two ancestors of the same kind, the nearer one
+/// containing the node through ANOTHER field than the farther one.  The inner rule `{kind: K, pattern: $R0}` has
+/// the nearer ancestor's shape and binds $R0 to it; the field test rejects it, and nothing of that attempt may be
+/// left when the farther ancestor is tried.  Returns the project and the node's index.
+pub fn gen_inside_field_retry_project(rng: &mut Rng, nodes: &[N]) -> Option<(Project, usize, (usize, usize, u16))> {
+  for _ in 0..80 {
+    let ni = rng.below(nodes.len());
+    let n = nodes[ni].clone();
+    if !n.is_named() {
+      continue;
+    }
+    // (ancestor, field of the child on the path)
+    let mut chain: Vec<(N, Option<String>)> = vec![];
+    let mut child = n.clone();
+    for a in n.ancestors() {
+      chain.push((a.clone(), field_of_child(&a, &child)));
+      child = a;
+    }
+    for j in 1..chain.len() {
+      let (a2, f2) = &chain[j];
+      let Some(f2) = f2 else { continue };
+      if let Some((_a1, _)) = chain[..j].iter().find(|(a1, f1)| a1.kind_id() == a2.kind_id() && f1.as_deref() != Some(f2.as_str())) {
+        // no nearer ancestor of that kind reaches the node through f2 itself
+        if chain[..j].iter().any(|(a1, f1)| a1.kind_id() == a2.kind_id() && f1.as_deref() == Some(f2.as_str())) {
+          continue;
+        }
+        let inner = RObj { keys: vec![RKey::Pattern { text: "$R0".into(), selector: None, strictness: None }, RKey::Kind(a2.kind().to_string())] };
+        let rel = Box::new(Rel { rule: inner, stop: Stop::End, field: Some(f2.clone()) });
+        let rule = RObj { keys: vec![RKey::Pattern { text: "$Q0".into(), selector: None, strictness: None }, RKey::Kind(n.kind().to_string()), RKey::Inside(rel)] };
+        return Some((Project { rule, utils: vec![], constraints: vec![] }, ni, (a2.range().start, a2.range().end, a2.kind_id())));
+      }
+    }
+  }
+  None
+}
+
 pub fn gen_project(rng: &mut Rng, ing: &Ingredients, depth: usize, allow_vars: bool, with_constraints: bool) -> Project {
   let mut counter = 0usize;
   let mut utils: Vec<(String, RObj)> = vec![];
@@ -281,7 +351,19 @@ pub fn run_stream(o: &Opts, which: &str) {
         let mut witness: Option<((usize, usize, u16), (usize, usize, u16), String)> = None;
         let field_stop = if retry.is_none() && rng.chance(1, 6) { gen_field_stop_project(&mut rng, &dc.nodes) } else { None };
         let wide_range = if retry.is_none() && field_stop.is_none() && rng.chance(1, 8) { gen_wide_range_project(&mut rng, src, &dc.nodes) } else { None };
-        let p = if let Some((p, ni)) = wide_range {
+        let stop_last = if retry.is_none() && field_stop.is_none() && wide_range.is_none() && rng.chance(1, 6) { gen_stop_last_child_project(&mut rng, &dc.nodes) } else { None };
+        let field_retry = if shared && retry.is_none() && field_stop.is_none() && wide_range.is_none() && stop_last.is_none() && rng.chance(1, 5) { gen_inside_field_retry_project(&mut rng, &dc.nodes) } else { None };
+        let mut far_ancestor: Option<(usize, usize, u16)> = None;
+        let p = if let Some((p, ni, a2)) = field_retry {
+          out.count("gen:inside-field-passes-over-a-nearer-ancestor");
+          witness_idx = Some(ni);
+          far_ancestor = Some(a2);
+          p
+        } else if let Some((p, ni)) = stop_last {
+          out.count("gen:stop-node-is-a-last-child");
+          witness_idx = Some(ni);
+          p
+        } else if let Some((p, ni)) = wide_range {
           out.count("gen:range-of-multi-line-node-with-wide-last-line");
           witness_idx = Some(ni);
           p
@@ -339,6 +421,16 @@ pub fn run_stream(o: &Opts, which: &str) {
                   c2.text(), n.text().chars().take(120).collect::<String>(), serde_json::to_string(&p.yaml()).unwrap()), json!({"stream": which, "rule": p.yaml(), "source": src, "lang": lang.to_string()}));
               }
             }
+          }
+        }
+        // direct oracle of the inside-field construction: the node matches and $R0 is the FARTHER ancestor
+        if let (Some(wi), Some((as_, ae, ak))) = (witness_idx, far_ancestor) {
+          let n = dc.nodes[wi].clone();
+          out.checked();
+          let got = catch_unwind(AssertUnwindSafe(|| core.match_node(n.clone()).map(|nm| nm.get_env().get_match("R0").map(|r| (r.range().start, r.range().end, r.kind_id()))))).unwrap_or(None);
+          if got != Some(Some((as_, ae, ak))) {
+            out.oracle_fail("", &format!("{lang}: `inside` with field must pass over a nearer ancestor of the same kind (reached through another field) and bind $R0 to the farther one at {as_}..{ae}; got {got:?} for node {:?}; rule {}", n.text().chars().take(80).collect::<String>(), serde_json::to_string(&p.yaml()).unwrap()),
+              json!({"stream": which, "rule": p.yaml(), "source": src, "lang": lang.to_string()}));
           }
         }
         // node sample: all nodes when small, else a seeded sample always including the root
